@@ -363,7 +363,11 @@ func genPayload(r *Rng, ts []stype, faulty bool, o *Out) payloadParts {
 			o.stat("fault.attr-literal")
 		}
 	case 1:
-		p.attrs = append(p.attrs, [2]string{"unknown", "1"})
+		name := "unknown"
+		if rn := sortedKeys(st.typ.Rels); len(rn) > 0 && r.chance(1, 3) {
+			name = rn[r.IntN(len(rn))] // a relationship's name among the attributes
+		}
+		p.attrs = append(p.attrs, [2]string{name, []string{"1", "null", `"x"`, "[]"}[r.IntN(4)]})
 		o.stat("fault.unknown-attr")
 	case 2:
 		p.typ = []string{"nope", "", "T"}[r.IntN(3)]
@@ -375,7 +379,12 @@ func genPayload(r *Rng, ts []stype, faulty bool, o *Out) payloadParts {
 		}
 		o.stat("fault.no-type")
 	case 4:
-		p.rels = append(p.rels, [2]string{"unknownrel", `{"data":null}`})
+		name := "unknownrel"
+		if an := sortedKeys(st.typ.Attrs); len(an) > 0 && r.chance(1, 3) {
+			name = an[r.IntN(len(an))] // an attribute's name among the relationships
+		}
+		obj := []string{`{"data":null}`, `{}`, `{"links":{"self":"s"}}`, `{"meta":{"k":1}}`, `{"data":[]}`, `{"data":{"id":"1","type":"t"}}`}[r.IntN(6)]
+		p.rels = append(p.rels, [2]string{name, obj})
 		o.stat("fault.unknown-rel")
 	case 5:
 		if len(p.attrs) > 0 {
